@@ -79,6 +79,10 @@ def recipes(tier, rng):
                           ("json", []), ("text", "x" * 300)):
         for st in (200, 418, 777):
             out.append(["small", kind, content, st, [], [], None, None])
+    # a JSON response with json.dumps options of its own, between two without (the options belong to that one object)
+    out.append(["small", "json", {"b": [1, "é"], "a": None}, 200, [], [], None, None])
+    out.append(["small", "jsonp", {"b": [1, "é"], "a": None}, 200, [], [], None, None])
+    out.append(["small", "json", {"b": [1, "é"], "a": None}, 201, [], [], None, None])
     out.append(["small", "text", "latin é", 200, [], [], "text/csv", "latin-1"])
     out.append(["small", "bytes", b"raw", 200, [], [], "application/x-raw", None])
     for items in ([], [b"a"], [b"a", b"b", b"c"], ["RAISE"], [b"a", "RAISE"], [b"a", b"b", "RAISE", b"c"], [b"", b""]):
